@@ -79,6 +79,22 @@ def install_codegen_models(I, W):
     I.models.froms[("sympy", "ccode")] = Builtin("sympy.ccode", m_ccode)
 
 
+class CCode(Contract):
+    """cpp._ccode(expr): the C text of expr (D-ccode: sympy's C99 printer, with Mod printed as the floored modulo it means).
+    Caller-side form only; what the printed text computes is validated per program (C02(b))."""
+
+    key = "formak.cpp:_ccode"
+
+    def apply(self, I, args, kwargs):
+        from contracts.pyblock import finite_f
+
+        e = args[0]
+        if not isinstance(e, ExprV):
+            raise Unsupported("_ccode of a non-expression")
+        I.path.oblige(f"{I.path.ghost.get('site', 'ccode')}.printed_expression_has_no_complex_infinity", finite_f(e.z), theory="euf")
+        return CStrV(ccode_f(e.z))
+
+
 class CppBlockCompile(Contract):
     """cpp.BasicBlock.compile()                                                     [C08 C++ half]
     ensures  yields, in this order: one `double t_i = ccode(simplify(rhs_i))` declaration per cse replacement, in cse order (so every temporary
